@@ -104,8 +104,8 @@ struct SimCore
     {
         Plan const& p = *plan;
         std::size_t const n = x.size();
-        long double xl[8];
-        for (std::size_t i = 0; i != n && i != 8; ++i) xl[i] = x[i];
+        long double xl[MAXD];
+        for (std::size_t i = 0; i != n && i != MAXD; ++i) xl[i] = x[i];
 
         std::uint64_t const h = hash_point(xl, n, channel);
         int const pk = poison_kind(c, h);
@@ -280,7 +280,7 @@ struct MultiMap
     {
         Ctx& c = ctx();
         std::size_t const n = rn.size();
-        long double u[8], x[8];
+        long double u[MAXD], x[MAXD];
 
         if (action == hep::multi_channel_map::calculate_coordinates)
         {
@@ -1075,6 +1075,7 @@ public:
         c.genmode = ctl.genmode;
         c.lat_n = ctl.lat_n;
         c.lat_dims = p.dims;
+        c.lat_active = ctl.lat_active ? ctl.lat_active : p.dims;
         c.lat_percall = p.dims + (p.integ == MULTI ? 1 : 0);
         c.lat_base = ctl.lat_base;
         c.lat_points = ctl.lat_points;
